@@ -103,7 +103,7 @@ package util
 //@ func (*SimpleTimers).removeTimerOf
 //@   prop C34
 //@   requires ts.timers != nil && tr != nil
-//@   requires forall(TimerID(q), mhas(ts.timers, q) ==> mval(ts.timers, q, *SimpleTimer) != nil && mval(ts.timers, q, *SimpleTimer).whenRemoved != nil)
+//@   requires tr.whenRemoved != nil
 //@   modifies mview(ts.timers), *
 //@   ensures [only-itself] forall(TimerID(q), old(mhas(ts.timers, q)) && old(mval(ts.timers, q, *SimpleTimer)) != tr ==> mhas(ts.timers, q) && mval(ts.timers, q, *SimpleTimer) == old(mval(ts.timers, q, *SimpleTimer)))
 //@   ensures [removes-itself] old(mhas(ts.timers, tr.id)) && old(mval(ts.timers, tr.id, *SimpleTimer)) == tr ==> !mhas(ts.timers, tr.id)
@@ -113,7 +113,11 @@ package util
 //@ func (*SimpleTimers).iterate
 //@   prop C34
 //@   requires ts.timers != nil
+//@   requires forall(TimerID(q), mhas(ts.timers, q) ==> mval(ts.timers, q, *SimpleTimer) != nil && mval(ts.timers, q, *SimpleTimer).whenRemoved != nil && mval(ts.timers, q, *SimpleTimer).getCtx != nil && mval(ts.timers, q, *SimpleTimer).intervalFunc != nil && mval(ts.timers, q, *SimpleTimer).callback != nil && mval(ts.timers, q, *SimpleTimer).expiredLocked != nil)
+//@   hof Traverse#0 loop invariant timers == nil || private(timers)
+//@   hof Traverse#0 loop invariant forall(k, 0 <= k && k < len(timers) ==> timers[k] != nil && timers[k].whenRemoved != nil && timers[k].getCtx != nil && timers[k].intervalFunc != nil && timers[k].callback != nil && timers[k].expiredLocked != nil)
 //@   callsite removeTimer requires false
+//@   fnparam intervalFunc pure
 
 // a timer whose context is cancelled (stopped) never runs its callback again
 //@ func (*SimpleTimer).run
@@ -155,3 +159,9 @@ package util
 //@   trusted
 //@ func (*BaseJobWorker).Cancel
 //@   trusted
+
+//@ func (LockedMap).Traverse
+//@   nobody
+//@   loops f(tk, tv) -> keep
+//@   where mhas(self, tk) && tv == mval(self, tk, tv)
+//@   until !keep
